@@ -238,4 +238,72 @@ theorem pairMac_injective (d : Digest) (s s' m m' : Bytes) (h : pairMac d s m = 
       have := ih r' h.2
       exact ⟨by rw [h.1, this.1], this.2⟩
 
+
+/-- whichever signer is configured (`NullSigner` included), checking what `sign` produced returns the payload -/
+theorem checkSign_sign (cfg : Cfg α) (hhex : ∀ d s m, isLowerHex (cfg.mac d s m) = true) (key p b : Bytes)
+    (h : sign cfg key (.bytes p) = some (.bytes b)) : checkSign cfg key b = .ok p := by
+  unfold sign at h
+  unfold checkSign
+  cases hs : cfg.signer with
+  | none => simp [hs] at h; simp [h]
+  | some s =>
+    simp [hs] at h
+    subst h
+    exact checkHash_sign_of_no_us cfg s key p (us_not_mem_of_hex (hhex _ _ _))
+
+/-- decoding a signed-or-not blob whose payload is `p`: the digit shortcut is skipped, the
+signature verifies, and either the custom decoder or `loads p` decides -/
+theorem decode_signed (cfg : Cfg α) (hhex : ∀ d s m, isLowerHex (cfg.mac d s m) = true) (key p b : Bytes)
+    (hsig : sign cfg key (.bytes p) = some (.bytes b)) (hnd : isDigits b = false) :
+    decode cfg key (.bytes b) false
+      = if isCustomEncoded cfg p then customDecode cfg p else postLoads cfg p (cfg.pickler.loads p) := by
+  have := checkSign_sign cfg hhex key p b hsig
+  by_cases hc : isCustomEncoded cfg p = true <;> simp [decode, preLoads, hnd, this, hc]
+
+/-- `tag:payload` with a registered, colon-free tag is recognised as custom-encoded -/
+theorem isCustomEncoded_tagged (cfg : Cfg α) (htags : ∀ tag c, cfg.registry tag = some c → colon ∉ tag)
+    (tag payload : Bytes) (c : Codec α) (hreg : cfg.registry tag = some c) :
+    isCustomEncoded cfg (tag ++ colon :: payload) = true := by
+  simp [isCustomEncoded, splitFirst_append colon _ _ (htags _ c hreg), hreg]
+
+
+/-- the stored object `w` is a byte string of the form `[label:]sig_p` — split at its first `_` — and
+`sig` is the MAC, under the reader's secret `s.secret` and the digest named by the label (the configured
+digest when there is no label), of `key ‖ p` -/
+def VerifiedPayload (cfg : Cfg α) (s : Signer) (key : Bytes) (w : Val α) (p : Bytes) : Prop :=
+  ∃ b hdr d, w = .bytes b ∧ b = hdr ++ us :: p ∧ us ∉ hdr ∧
+    ((hdr = d.label ++ colon :: cfg.mac d s.secret (key ++ p)) ∨
+     (colon ∉ hdr ∧ d = s.digest ∧ hdr = cfg.mac d s.secret (key ++ p)))
+
+theorem verified_of_check (cfg : Cfg α) (s : Signer) (hs : cfg.signer = some s)
+    (key : Bytes) (w : Val α) (same : Bool) (p : Bytes)
+    (h : preLoads cfg key w same = .loads p ∨ preLoads cfg key w same = .custom p) :
+    VerifiedPayload cfg s key w p := by
+  unfold preLoads at h
+  cases same with
+  | true => simp at h
+  | false =>
+    cases w with
+    | int i => simp at h
+    | obj x => simp at h
+    | bytes b =>
+      simp only [Bool.false_eq_true, if_false] at h
+      by_cases hd : isDigits b = true
+      · simp [hd] at h
+      · simp only [hd] at h
+        cases hc : checkSign cfg key b with
+        | missing => simp [hc] at h
+        | unsecure => simp [hc] at h
+        | ok p' =>
+          have hp : p' = p := by
+            simp only [hc] at h
+            by_cases hce : isCustomEncoded cfg p' = true
+            · simp [hce] at h; exact h
+            · simp [hce] at h; exact h
+          subst hp
+          simp only [checkSign, hs] at hc
+          obtain ⟨hdr, d, h1, h2, h3⟩ := checkHash_ok hc
+          exact ⟨b, hdr, d, rfl, h1, h2, h3⟩
+
+
 end CashewsVerif.Serial
